@@ -21,7 +21,7 @@ ASSUMPTIONS = ["state/action list order is unspecified by the docstring: only se
                "explicit list is asserted", "for max_states below the closure size only soundness (superset of the "
                "initial support, subset of the closure) is asserted"]
 
-SCHEMES = ("int", "str", "tuple", "fd", "mixed")
+SCHEMES = ("int", "str", "tuple", "fd", "mixed", "collide", "int_gap")
 
 
 def matrix_cases(tier):
@@ -105,11 +105,21 @@ def prop_views(spec, ctx):
     tt, rt, sart = mdp.transition_table, mdp.reward_table, mdp.state_action_reward_table
     for i, s in enumerate(sl):
         for j, a in enumerate(al):
-            ctx.check(float(sart[s][a]) == sar[i, j], "C06.tables.state_action_reward_table", lambda: f"{s},{a}")
-            ctx.check(float(sart[s, a]) == sar[i, j], "C06.tables.state_action_reward_table", lambda: f"{s},{a}")
+            cell = ctx.call("C06.tables.read_raises", lambda: sart[s][a])
+            ctx.check(np.ndim(cell) == 0 and float(cell) == sar[i, j], "C06.tables.state_action_reward_table", lambda: f"{s},{a}: {cell!r}")
+            if (s, a) not in sl:       # (a key that is itself a state selects that state's row: C12)
+                cell2 = ctx.call("C06.tables.read_raises", lambda: sart[s, a])
+                ctx.check(np.ndim(cell2) == 0 and float(cell2) == sar[i, j], "C06.tables.state_action_reward_table", lambda: f"{s},{a}: {cell2!r}")
+            else:
+                row = ctx.call("C06.tables.read_raises", lambda: sart[(s, a)])
+                ii = sl.index((s, a))
+                ctx.check(np.ndim(row) == 1 and [float(row[b]) for b in al] == [float(x) for x in sar[ii]],
+                          "C06.tables.state_key_that_looks_like_a_state_action_pair", lambda: f"sart[{(s, a)!r}] = {row!r}")
             for k, ns in enumerate(sl):
-                ctx.check(float(tt[s][a][ns]) == T[i, j, k], "C06.tables.transition_table", lambda: f"{s},{a},{ns}")
-                ctx.check(float(rt[s][a][ns]) == Rm[i, j, k], "C06.tables.reward_table", lambda: f"{s},{a},{ns}")
+                c1 = ctx.call("C06.tables.read_raises", lambda: tt[s][a][ns])
+                c2 = ctx.call("C06.tables.read_raises", lambda: rt[s][a][ns])
+                ctx.check(np.ndim(c1) == 0 and float(c1) == T[i, j, k], "C06.tables.transition_table", lambda: f"{s},{a},{ns}")
+                ctx.check(np.ndim(c2) == 0 and float(c2) == Rm[i, j, k], "C06.tables.reward_table", lambda: f"{s},{a},{ns}")
     unav = bool((~ref.avail[[view.sidx[s] for s in sl]][:, [view.aidx[a] for a in al]]).any()) if sl and al else False
     zero_entry = any(w == 0 for s in range(ref.n) for _, outs in spec["trans"][s] for _, w, _ in outs) or \
         any(w == 0 for _, w in spec["p0"])
